@@ -34,6 +34,8 @@ fn rule_pool() -> Vec<(&'static str, &'static str)> {
         ("call_c_again", "is_some(c(i1))"),
         ("call_c_none", "[c(x.zz), n(none)]"),
         ("nested", "{a: x, b: [c(i2), :s]}"),
+        ("call_c_dec", "c(d1)"),
+        ("call_c_similar", "[c(d1.0), c(f0.0), c(f-0.0), c(i1)]"),
     ]
 }
 
